@@ -172,7 +172,7 @@ def check_symbol(node: CallExpr, symbol: SymbolNode | None, errors: list[Error])
                 if isinstance(item, Decorator):
                     check_func(node, item.func, errors)
 
-            if symbol.impl:
+            if symbol.impl and len(errors) == error_count:
                 if isinstance(symbol.impl, FuncDef):
                     check_func(node, symbol.impl, errors)
 
@@ -180,7 +180,12 @@ def check_symbol(node: CallExpr, symbol: SymbolNode | None, errors: list[Error])
                     check_func(node, symbol.impl.func, errors)
 
         case TypeInfo():
+            error_count = len(errors)
+
             for func_name in ("__new__", "__init__"):
+                if len(errors) > error_count:
+                    break
+
                 if new_symbol := symbol.names.get(func_name):
                     assert new_symbol.node
 
